@@ -29,7 +29,7 @@ check("C06", "model_checking",
       "wait intervals observed via a harness-installed wrapper of wait_for_response; virtual time; simulator as responder. The check-then-act gate defect is a recorded known finding.",
       "exhaustive fate-vector + bounded schedule-deviation exploration of the real request engine", "DESIGN.md §2 C06", "E1+E2+E3")
 check("C07", "model_checking",
-      "Connected client with all five consumers (queue wrapped from outside, handshake included): all arrival sequences up to length 3 over a 13-datagram alphabet (known, unknown, unsolicited, mis-addressed, malformed framing) x relative offsets x active waiter (none, ping, status block, a ping whose first attempt is lost with arrivals on a 20 ms grid around its time-out and retry instants), slow client callbacks, two connections in one process, plus timer-order/batch deviations; each item popped exactly once by unhandled or an accepting consumer, head residence <= 3 polls, mis-addressed content never re-queued, no effect on block/events/observers.",
+      "Connected client with all five consumers (queue wrapped from outside, handshake included): all arrival sequences up to length 3 over a 15-datagram alphabet (known, unknown, binary, unsolicited, mis-addressed, malformed framing) x relative offsets x active waiter (none, ping, status block, a ping whose first attempt is lost with arrivals on a 20 ms grid around its time-out and retry instants), slow client callbacks, two connections in one process, plus timer-order/batch deviations; each item popped exactly once by unhandled or an accepting consumer, head residence <= 3 polls, mis-addressed content never re-queued, no effect on block/events/observers.",
       "well-formed payloads for known verbs (malformation at framing level, as the property says).",
       "exhaustive bounded arrival-sequence enumeration + bounded schedule deviations on the real dispatch code", "DESIGN.md §2 C07", "E1+E2+E3")
 
@@ -55,7 +55,7 @@ check("C17", "model_checking",
       "exhaustive enumeration of sleeper/switch plans with all tie orders (unbounded deviations)", "DESIGN.md §2 C17", "E1+E3")
 
 check("C02", "exploration",
-      "Real accessors of every shipped table on real structure objects: per geometric shape ALL prior field contents x ALL domain values (bit-fields), ALL domain values x prior patterns (bytes, words, HH:MM, every raw temperature word in both units) at the shipped position, both block edges and the middle; every one of the ~20,500 items on three backgrounds; both write paths; every device write followed onto the wire (the clients' SPACK constructor decoded by the reference layout); blocking writes on a really connected async spa; reference bit-field codec built from the raw declarations.",
+      "Real accessors of every shipped table on real structure objects: per geometric shape ALL prior field contents x ALL domain values (bit-fields), ALL domain values x prior patterns (bytes, words, HH:MM, every raw temperature word in both units) at the shipped position, both block edges and the middle; every one of the ~20,500 items on three backgrounds; both write paths; every device write followed onto the wire (the clients' SPACK constructor decoded by the reference layout); blocking writes on a really connected async spa; two structures of one pack in one process; reference bit-field codec built from the raw declarations.",
       "background outside the field: seed-chosen pattern; shapes that exist only read-only are tested for refusal only.",
       "exhaustive input enumeration per shape + per-item binding sweep against a reference codec", "DESIGN.md §2 C02", "E6")
 check("C03", "model_checking",
@@ -63,7 +63,7 @@ check("C03", "model_checking",
       "quick tier does the full 256^2 sweep on the blocking structure at the shipped position and boundary pairs on the edge twins / awaitable structure; thorough does all.",
       "exhaustive update enumeration against a reference decoder + explicit-state BFS of observer lists", "DESIGN.md §2 C03", "E4+E6")
 check("C04", "exploration",
-      "Every constructor of driver/protocol/*.py with every scalar field over its whole range, payload token strings (framing tags, newlines, NUL, <, >, |) up to length 4/5, all reminder types x signed day boundaries, every shipped platform x version in the config-file reply, latin-1 hello names, every byte value inside packet identifiers, long-lived handlers decoding after messages of other shapes and seeing the same identifiers from other addresses; compared byte-for-byte with an independent reference codec, offered to every standard handler family (exactly one must claim it), decoded by a fresh peer handler, passed through the framing extractor, reply addressing swapped.",
+      "Every constructor of driver/protocol/*.py with every scalar field over its whole range, payload token strings (framing tags, newlines, NUL, <, >, |) up to length 4/5, all reminder types x signed day boundaries, every shipped platform x version in the config-file reply, latin-1 hello names and names made of protocol words, every byte value inside packet identifiers, long-lived handlers decoding after messages of other shapes and seeing the same identifiers from other addresses; compared byte-for-byte with an independent reference codec, offered to every standard handler family (exactly one must claim it), decoded by a fresh peer handler, passed through the framing extractor, reply addressing swapped.",
       "reference codec written from the protocol layout; SETWC/WCREQ unclaimed is a recorded known finding.",
       "exhaustive field-domain enumeration against a reference codec", "DESIGN.md §2 C04", "E6")
 check("C11", "exploration",
@@ -71,7 +71,7 @@ check("C11", "exploration",
       "facades built on a stand-in spa exposing the real structure/accessors; byte sweeps run on the 139 combinations that cover every cfg and every log version of each platform (thorough: all 256 contents, both sweeps), the block set on all 895; 18 unconstructible combinations are recorded known findings.",
       "exhaustive configuration enumeration + one-field-exhaustive input sweeps", "DESIGN.md §2 C11", "E6")
 check("C12", "exploration",
-      "Output wirings written through the reference codec on platform x config x log combinations (every single assignment, label pairs on the two richest outputs, same-device H/L variants on every output pair, device pairs and maximal sets, all-same-label, empty, snapshot wirings); real async and blocking facades compared with an independent recomputation of the inventory (devices in table order, classes, demand items, modes, sensors, unique keys, lookup); one long-lived blocking facade per combination re-scanned on every block (non-initial states); blocking facade under PYTHONHASHSEED 0..15.",
+      "Output wirings written through the reference codec on platform x config x log combinations (every single assignment, label pairs on the two richest outputs, same-device H/L variants on every output pair, device pairs and maximal sets, all-same-label, empty, snapshot wirings); real async and blocking facades compared with an independent recomputation of the inventory (devices in table order, classes, demand items, modes, sensors, unique keys, lookup); one long-lived blocking facade per combination re-scanned on every block (non-initial states); blocking facade under PYTHONHASHSEED 0..15; its readiness flag against a polling client thread under the thread scheduler (pre-emption bounded).",
       "quick: every cfg with the latest log and every log with the latest cfg; thorough: all 895.",
       "exhaustive wiring enumeration against an independent inventory model", "DESIGN.md §2 C12", "E6")
 check("C13", "model_checking",
@@ -79,7 +79,7 @@ check("C13", "model_checking",
       "the spa's reaction to commands is modelled (documented in props/c13.py); the ping-gate drop after a mode switch is a recorded known finding.",
       "exhaustive command enumeration on the real stack against a spa model", "DESIGN.md §2 C13", "E1+E2")
 check("C14", "exploration",
-      "Real temperature accessor: all 65,536 raw words x both units x both unit orders read, every representable value written back exactly (float and string, both paths), every decimal k/100 around the limits within one device step and monotone; real GeckoWaterHeater on all 895 combinations (+ synthetic packs lacking the flag items): unit symbol, limits, readings, full operation ladder incl. readings one device step apart.",
+      "Real temperature accessor: all 65,536 raw words x both units x both unit orders read, every representable value written back exactly (float and string, both paths), every decimal k/100 around the limits within one device step and monotone; real GeckoWaterHeater on all 895 combinations (+ synthetic packs lacking the flag items): unit symbol, limits, readings, full operation ladder incl. readings one device step apart, unit bytes outside the two labels, set points the spa does not take.",
       "heater built on a stand-in facade over the real tables.",
       "exhaustive value-domain enumeration", "DESIGN.md §2 C14", "E6")
 check("C18", "exploration",
@@ -87,7 +87,7 @@ check("C18", "exploration",
       "finite configuration space enumerated completely, not behaviours; two table-data defects are recorded known findings.",
       "exhaustive enumeration of a finite table set + golden layout comparison", "DESIGN.md §2 C18", "E6")
 check("C19", "exploration",
-      "Real GeckoShell.do_snapshot through the shell's log format parsed back (every byte value at every position class, version tuples, pack names, snapshot names over a token alphabet; one long-lived shell); DEBUG traffic log of the real blocking handshake for every simulator segment size 4..255 and STATV contents over all strings <=3/4 from the quote/escape alphabet reassembled by the parser, irregular segmentations; every shipped snapshot loaded into the simulator and served to a real async client (incl. its periodic refresh), one simulator reloading all of them in sequence, and served with the simulator's own loss model on (its random draws as choice points, all vectors / deviation-bounded, both clients).",
+      "Real GeckoShell.do_snapshot through the shell's log format parsed back (every byte value at every position class, version tuples, pack names, snapshot names over a token alphabet; one long-lived shell; every parsed snapshot saved and parsed again); DEBUG traffic log of the real blocking handshake for every simulator segment size 4..255 and STATV contents over all strings <=3/4 from the quote/escape alphabet reassembled by the parser, irregular segmentations; every shipped snapshot loaded into the simulator and served to a real async client (incl. its periodic refresh), one simulator reloading all of them in sequence, and served with the simulator's own loss model on (its random draws as choice points, all vectors / deviation-bounded, both clients).",
       "scratch log files under /tmp, removed after each case.",
       "exhaustive input enumeration of the capture/parse round trip", "DESIGN.md §2 C19", "E6 + stepped engine")
 check("C20", "model_checking",
